@@ -691,6 +691,9 @@ def _node_representer(dumper, node):
         if not tag:
             tag = '!metadata'
 
+        if tag == '!path':
+            tag += ':' # the first suffix of this tag is the reference point: an empty one keeps the metadata from being taken for it
+
         tag += ':' + _encode_metadata(metadata)
 
     pop = False
